@@ -29,7 +29,8 @@ func (fx *fexec) aminoUnmarshal(key string, x *ssa.Call, args []Val, st *State, 
 	v = vc.define("decoded", v)
 	vc.assert(vc.typeInv(v, pt.Elem(), st.alloc))
 	vc.storeLoc(st, vc.locOfPtr(target), v)
-	e := vc.fresh("unmarshal_err", SInt)
+	// whether decoding fails is a function of the input bytes too (spec: aminoFails(T, bz))
+	e := vc.define("unmarshal_err", vc.pureApp("amino.err."+mangle(typeKey(vc.resolve(pt.Elem()))), []Val{args[0]}, types.Typ[types.Int], heapOf))
 	vc.assert(ge(e, intLit(0)))
 	return Val{Ty: rt, T: e}
 }
